@@ -28,6 +28,7 @@ import PyomaVerif.Ops.C08
 import PyomaVerif.Ops.MsGather
 import PyomaVerif.Ops.C02State
 import PyomaVerif.Ops.BuildHank
+import PyomaVerif.Ops.C07Rect
 /-! Line-protocol driver: one JSON object per line in, one JSON value per line out. -/
 open Lean PV PV.Codec
 
@@ -43,6 +44,7 @@ def allOps : List (String × (Json → Except String Json)) :=
   ++ PV.Ops.C06All.ops
   ++ PV.Ops.BuildHank.ops
   ++ PV.Ops.C14Own.ops
+  ++ PV.Ops.C07Rect.ops
 
 def handle (line : String) : String :=
   match Json.parse line with
